@@ -84,6 +84,13 @@ type Script struct {
 	Texts   []string `json:"texts,omitempty"`
 	JSONEsc bool     `json:"json_u005c,omitempty"`
 
+	// Unk: kind of unknown fields (numbers vf.Chunk does not declare) that
+	// every request message and every reply carries; binary fronts only.
+	// Deadline: "" about ten seconds (the watchdog), "none" no deadline,
+	// "long" five minutes; the watchdog then works by cancellation.
+	Unk      string `json:"unknown_fields,omitempty"`
+	Deadline string `json:"deadline,omitempty"`
+
 	// Hop: class of HTTP/1 connection header fields added to the request
 	// (HTTP front); InProc: the request is handed to the Mux in-process.
 	Hop    string `json:"hop,omitempty"`
@@ -114,6 +121,12 @@ func (s *Script) String() string {
 	if s.JSONEsc {
 		meta += " backslash-as-u005c"
 	}
+	if s.Unk != "" {
+		meta += " unknown-fields=" + s.Unk
+	}
+	if s.Deadline != "" {
+		meta += " deadline=" + s.Deadline
+	}
 	if s.Hop != "" {
 		meta += " hop=" + s.Hop
 	}
@@ -141,12 +154,13 @@ type planWire struct {
 	Msg    string   `json:"msg"`
 	Det    int      `json:"det"`
 	BigRep int      `json:"big"`
+	Unk    string   `json:"uk,omitempty"`
 	Empty  []int    `json:"er,omitempty"`
 	Tiny   []int    `json:"tr,omitempty"`
 }
 
 func (s *Script) planJSON() string {
-	b, _ := json.Marshal(planWire{Steps: s.Server, Code: s.Final.Code, Msg: s.Final.Msg, Det: s.Final.Det, BigRep: s.BigRep, Empty: s.RepEmpty, Tiny: s.RepTiny})
+	b, _ := json.Marshal(planWire{Steps: s.Server, Code: s.Final.Code, Msg: s.Final.Msg, Det: s.Final.Det, BigRep: s.BigRep, Empty: s.RepEmpty, Tiny: s.RepTiny, Unk: s.Unk})
 	return string(b)
 }
 
@@ -674,6 +688,39 @@ func textScripts(rng *rand.Rand, thorough bool) []*Script {
 	return out
 }
 
+// unkScripts: every kind of unknown field on every shape of the binary
+// fronts, and the three deadline values on every shape.
+func unkScripts(rng *rand.Rand) []*Script {
+	var out []*Script
+	for _, front := range []string{"grpc", "web"} {
+		byShape := map[string][]structure{}
+		for _, st := range structures(front) {
+			if st.NMsg > 0 && !st.fail {
+				byShape[st.Shape] = append(byShape[st.Shape], st)
+			}
+		}
+		for _, shape := range []string{"unary", "ss", "cs", "bidi"} {
+			g := byShape[shape]
+			for _, k := range unknownKinds {
+				s := materialise(rng, g[rng.Intn(len(g))])
+				s.Unk = k
+				out = append(out, s)
+			}
+			for _, d := range []string{"", "none", "long"} {
+				s := materialise(rng, g[rng.Intn(len(g))])
+				s.Deadline = d
+				out = append(out, s)
+			}
+		}
+		// ping-pong: the unknown fields come back in the echo
+		for _, k := range unknownKinds {
+			out = append(out, &Script{Front: front, Shape: "bidi", NMsg: 3, Server: []string{"s", "p"}, Client: []string{"s", "s", "s", "c"}, Fam: "unknown:pingpong",
+				BigReq: -1, BigRep: -1, Unk: k, MDClass: "none"})
+		}
+	}
+	return out
+}
+
 // pipelined enumerates the full-duplex scripts: a bidi echo in which the
 // client keeps sending (its own goroutine) while the replies flow back, with
 // and without compression, so that both directions of the proxy work at the
@@ -829,6 +876,17 @@ func materialise(rng *rand.Rand, st structure) *Script {
 	if rng.Intn(3) == 0 {
 		drawSizes(rng, &s)
 	}
+	if s.Front == "grpc" || s.Front == "web" {
+		if rng.Intn(4) == 0 {
+			s.Unk = unknownKinds[rng.Intn(len(unknownKinds))]
+		}
+		switch rng.Intn(6) {
+		case 0:
+			s.Deadline = "none"
+		case 1:
+			s.Deadline = "long"
+		}
+	}
 	if s.NMsg > 0 && !s.Duplex && !s.HTTPGet && rng.Intn(4) == 0 {
 		s.Texts = make([]string, s.NMsg)
 		s.Texts[rng.Intn(s.NMsg)] = hostileTexts[rng.Intn(len(hostileTexts))]
@@ -875,6 +933,9 @@ func Cases(rng *rand.Rand, thorough bool) []*Script {
 			list = append(list, encScripts(rng)...)
 		}
 		list = append(list, textScripts(rng, true)...)
+		for k := 0; k < 3; k++ {
+			list = append(list, unkScripts(rng)...)
+		}
 		// WebSocket scripts: every structure six times; connection-header
 		// scripts: three draws
 		for _, st := range wsStructures() {
@@ -946,6 +1007,7 @@ func Cases(rng *rand.Rand, thorough bool) []*Script {
 	list = append(list, sizeScripts(rng, []string{"grpc", "web", "http"})...)
 	list = append(list, encScripts(rng)...)
 	list = append(list, textScripts(rng, false)...)
+	list = append(list, unkScripts(rng)...)
 	// connection-header scripts (every class x shape x real / in-process) and
 	// a third of the WebSocket structures
 	list = append(list, hopScripts(rng)...)
